@@ -103,6 +103,8 @@ def tlaps_chain(work, rep):
 
 def make_check(prop, plans_of, rule, nontrivial, level="model_checking", assumptions=(), post=None, pre=None, post_all=None):
     def check(work, tier, seed, replay):
+        if replay:
+            return replay_seq(prop, work, replay)
         rep = Report(prop, tier, seed, level)
         rng = random.Random(seed)
         build_driver()
@@ -167,6 +169,46 @@ def make_check(prop, plans_of, rule, nontrivial, level="model_checking", assumpt
             raise Inconclusive("vacuous run: fewer than 2 non-trivial cases were exercised")
         return rep.finish()
     return check
+
+
+def replay_seq(prop, work, path):
+    """re-executes the recorded run of a violation (sequential family) and judges it again"""
+    d = json.load(open(path))
+    print(json.dumps({k: d[k] for k in d if k != "observed_run"}, indent=1)[:3000])
+    evs = d.get("observed_run") or []
+    ups = [e for e in evs if e.get("e") in ("update", "get", "getlogs")]
+    if not ups or "constants" not in d or "MaxSize" not in d["constants"]:
+        print("this replay file does not describe a sequential run; re-running the quick check instead")
+        return CHECKS[prop](work, "quick", seed_from_env(), None)
+    c = {}
+    for k, v in d["constants"].items():
+        if k == "TraceFile":
+            continue
+        c[k] = Sub(v) if k == "ForkAt" else (set(v) if isinstance(v, list) else v)
+    steps = []
+    for e in ups:
+        if e["e"] == "update":
+            steps.append({"op": "update", "log": e["log"], "req": e["req"], **({"faults": e["fired"]} if e.get("fired") else {})})
+        elif e["e"] == "get":
+            steps.append({"op": "get", "log": e["log"]})
+        else:
+            steps.append({"op": "getlogs"})
+    parts = d["run"].rsplit("-", 3)
+    store, embed, seed = (parts[1], parts[2], int(parts[3])) if len(parts) == 4 else ("inmem", "id", 1)
+    rep = Report(prop, "quick", seed, "model_checking")
+    build_driver()
+    keyof = KEYOF if len(c["Logs"]) > 1 else None
+    trace, _ = execute(work, rep, c, [{"id": parts[0], "steps": steps}], [store], [embed], seed, keyof=keyof, tag="replay")
+    events = index_trace(trace)
+    fails = judge(work, rep, c, trace)
+    bad = [f for f in fails if f[1] == prop]
+    for f in bad:
+        print("FAIL again: %s/%s at step %s: %s" % (f[1], f[2], f[5], json.dumps(events[f[3] - 1])[:400]))
+    if bad:
+        print("VIOLATION property=%s replay=%s" % (prop, path))
+        return 1
+    print("the recorded run no longer violates %s on the current tree" % prop)
+    return 0
 
 
 def judge_chunks(work, rep, c, trace, events, chunk=120000):
